@@ -149,6 +149,8 @@ func vnewStore[K comparable, V any](o *StoreOptions[K, V]) *Store[K, V] {
 	before := runtime.NumGoroutine()
 	s := NewStore(o)
 	vtakeover(s, before)
+	// origin 0: the store's clock reads the virtual wall clock directly
+	s.timerwheel.clock.Start = time.Unix(0, 0)
 	return s
 }
 
@@ -183,3 +185,5 @@ func clockOff() { clock.VerifNow.Store(nil) }
 
 // xrandOff returns to the runtime's random source
 func xrandOff() { xruntime.VerifRand.Store(nil) }
+
+func runtimeNumGoroutine() int { return runtime.NumGoroutine() }
